@@ -88,5 +88,6 @@ Completeness(s) ==
   \A i \in 1..Len(s.wds) : \A out \in 1..(s.l1.nextOut[K(B)] - 1) :
      Claimable(s, i, out) => Step(s, Claim(s, "x", i, out)).ok
 NoStuckTransfer(s) == (\A i \in 1..Len(s.wds) : s.wds[i].amt <= s.l1.cap) /\ (\A q \in 1..Len(s.deps) : s.deps[q].amt <= s.l1.cap)
-Drained(s) == s.l2.seqL1 > Len(s.deps) /\ \A i \in 1..Len(s.wds) : Claimed(s, s.wds[i]) \/ ~L1!ValidAddr(s.wds[i].to)
+(* drained: nothing in flight, and every recorded withdrawal that C04 calls claimable (positive amount, valid L1 recipient) has been paid *)
+Drained(s) == s.l2.seqL1 > Len(s.deps) /\ \A i \in 1..Len(s.wds) : Claimed(s, s.wds[i]) \/ ~L1!ValidAddr(s.wds[i].to) \/ s.wds[i].amt = 0
 =============================================================================
